@@ -11,13 +11,67 @@ CHECKS = {
  "C01": (EXPL, "bounded-exhaustive choice-tree enumeration of NetworkPolicy worlds on the real analyzer; exact port/IP-cell comparison with an independent pointwise reference model",
          "Every leaf of the choice trees S-ports, S-sel-ip, S-multi, S-rules (thorough: + S-inter and all <=2-deviation variants of rich seeds) is executed on the real ConnlistFromResourceInfos and compared, for every workload pair and every cell of the exact port and IPv4 partitions, with a pointwise reference of the Kubernetes semantics. Exhaustive within the stated small-scope alphabets, not a sample.",
          "Small-scope bound (<=3 workloads, <=2 policies, alphabets of DESIGN §2.3). The reference model is the trusted base; C14 cross-checks it with oracle-free relations.", "§3 C01"),
+ "C02": (EXPL, "bounded-exhaustive enumeration of ANP/NetworkPolicy/BANP stacks incl. every document order of each stack; exact cell comparison with a pointwise reference of the precedence sentence",
+         "All leaves of S-single, S-stack (all 3! document orders), S-dir, S-many (5..21 ANPs in 8 document orders) are run through the real list and compared exactly with the reference; thorough adds all <=2-deviation variants of two rich seeds.",
+         "Small-scope bound (<=3 ANPs except S-many, priorities from a fixed set); reference model trusted.", "§3 C02"),
+ "C03": (EXPL, "bounded-exhaustive enumeration of pod worlds; every eval verdict on the exact port/IP cell partition compared with the list relation of the same documents and with the reference",
+         "The engine is populated exactly as `k8snetpolicy eval` does (InsertObject in document order); every ordered pod pair, every IP cell in both directions, 3 protocols x all port-cell boundary points are queried and compared with list; a designated scope sweeps all 3x65535 points in thorough tier; the built CLI binary is spawned on a sub-scope.",
+         "eval cell queries assume piecewise constancy between the constants of the input (removed by the thorough sweep on one scope).", "§3 C03"),
+ "C04": (EXPL, "all ordered pairs of a family of worlds through the real diff; pointwise oracle on the common refinement of IP ranges",
+         "For every ordered pair (A,B) of the family the diff entries are checked point by point against the two list reports (exactly-one covering entry, type, both connection values, new/lost flags), plus diff(A,A) and swap symmetry.",
+         "Family of worlds is bounded (topologies x ipBlock partitions x ports); list itself is checked by C01/C05.", "§3 C04"),
+ "C05": (EXPL, "invariant checked on every result of bounded-exhaustive world scopes (own scopes force full-set spellings and extremal ipBlocks)",
+         "wm.WellFormed is evaluated on every list result of S-full, S-full-anp, S-ipx, S-ipmany and of the C01/C02 world scopes (NetworkPolicy worlds with and without exposure); the same invariant is asserted inside the other list-based checks on every result they produce.",
+         "Invariant read off the API objects; alphabets bounded as in DESIGN §2.3.", "§3 C05"),
+ "C06": (EXPL, "bounded-exhaustive worlds x exhaustive enumeration of the finite quotient of hypothetical pods (labels x namespaces x named-port declarations)",
+         "For every world of the exposure scopes: base relation with/without the flag compared exactly; protected flags compared with the reference; every reported exposure entry is checked for realizability against every class of hypothetical pods satisfying its selectors (exact quotient argument in DESIGN §3 C06).",
+         "Quotient argument: selectors observe a pod only through the vocabulary of the world plus one fresh value per key.", "§3 C06"),
+ "C07": (EXPL, "same worlds and hypothetical-pod quotient as C06; completeness direction",
+         "For every protected workload/direction and every class of hypothetical pods, every connection the reference allows must be covered by the entire-cluster exposure or by a reported entry the pod satisfies, minus the documented omission.",
+         "Same quotient argument as C06; the documented omission is modelled from the statement.", "§3 C07"),
+ "C08": (MC, "map-iteration order turned into scheduler choice points by a source-to-source overlay; deviation-bounded schedule exploration (CHESS-style) + exhaustive document permutation/partition enumeration; byte comparison of every output",
+         "Every `range` over a map in pkg/ is rewritten (overlay) into a scheduler choice; all schedules with <=1 deviating range execution (thorough: <=2 on small inputs) are executed for each world/format and compared byte-for-byte with the canonical schedule; separately all document permutations / file splits / unordered-list permutations of small worlds are compared in the plain build.",
+         "Maps iterated inside dependencies are not controlled (backed by free-running repeats).", "§3 C08"),
+ "C09": (EXPL, "bounded-exhaustive result shapes x all formats; independent parsers turn each output back into a relation",
+         "Every output of every format is parsed back by independent parsers and must equal the relation built from the API objects (and therefore every other format); the same for exposure sections and for the diff formats.",
+         "Parsers are the trusted base; dot exposure naming normalised as documented.", "§3 C09"),
+ "C10": (EXPL, "full product of Service/Ingress/Route/workload/policy shapes against an independent reference of the routing + policy rule",
+         "Every world of the product is analysed by the real list; presence and connection of each {ingress-controller} line and the blocked-backend warnings are compared with the reference.",
+         "Route designation rule left open by the statement: Route scopes only contain services where all readings agree.", "§3 C10"),
+ "C11": (MC, "explicit-state breadth-first search over the real ConnectionSet methods with representation-level state hashing; abstract bitset model as oracle on every transition",
+         "States are real ConnectionSet values reached by generator steps and Union/Intersection/Subtract with every previously reached state as operand; after every transition denotation, non-modification, non-aliasing, canonical form and all predicates are compared with a bitset model over protocol x port cells.",
+         "Port cells from the alphabet's constants; named ports only through the clause the statement makes.", "§3 C11"),
+ "C12": (EXPL, "exhaustive single (thorough: double) structural mutation of every node of a seed corpus; every mutant through list, list+exposure, diff both ways and eval in crash-isolated workers",
+         "Every drop/null/empty/retype/value mutation of every node of one valid manifest per kind is analysed; any panic, worker death or watchdog expiry is a violation.",
+         "Mutation alphabet and seed corpus are bounded; byte-level mutations only in thorough tier.", "§3 C12"),
+ "C13": (EXPL, "valid worlds x all subsets (<=2) of a junk alphabet x all placements x stopOnError x command, on real files",
+         "Relation equality with the junk-free run, severe entries for every unreadable/malformed document, stop-on-error and fatal clauses checked for every combination.",
+         "Junk alphabet bounded (9 kinds).", "§3 C13"),
+ "C14": (EXPL, "bounded-exhaustive worlds x every applicable single-step edit; oracle-free pointwise relations between the two runs",
+         "For every world and every edit of the listed kinds the two list results are compared on the common refinement (subset / superset / equality / locality).",
+         "Backstop against a misreading shared by the reference and the tool; classification of edits uses only selector matching.", "§3 C14"),
+ "C15": (MC, "explicit-state BFS over operation histories of the real PolicyEngine with canonical private-state hashing (overlay dump); invariant = agreement with a fresh engine and the reference in every state",
+         "From the empty engine and pre-populated seeds, every operation of the alphabet (inserts, updates, deletes incl. absent objects and equal copies, queries) is applied in every reached state; states are merged by the full private-state dump; in every state every query must equal a fresh engine on the current objects and the reference.",
+         "Merging by dump is sound because the dump is the whole state the methods read (LRU recency excluded, capacity never reached).", "§3 C15"),
+ "C16": (EXPL, "worlds with name collisions x every focus string x formats; filter oracle on the unfocused relation",
+         "Focused API relation must equal the filtered unfocused relation for every focus string (names, ns/names, absent names, ingress-controller) and the formatted outputs must parse to the same.",
+         "Uses the C09 parsers.", "§3 C16"),
+ "C17": (EXPL, "base worlds x every re-expression of each workload (kind x replicas x bare pods with owner); relation equality modulo [Kind]",
+         "Every re-expression is analysed and compared with the base relation; one peer per workload; no self entry; name-collision worlds.",
+         "Kinds and replica counts bounded as listed.", "§3 C17"),
+ "C18": (EXPL, "directories x full product of valid flag combinations on the freshly built CLI binary vs library calls",
+         "stdout bytes vs library string, -f file vs stdout, exit status vs library error, resource-info API vs directory API.",
+         "~25 ms per spawn bounds the product.", "§3 C18"),
+ "C19": (MC, "exhaustive enumeration of input orders: all permutations for n<=7(8), all position pairs over base orders for n up to 51 (both sides of pdqsort's thresholds); each conflict kind at every position",
+         "The 'states' are input orders; the transition relation is the sort's comparison sequence; every enumerated order containing a conflict must be rejected with an error naming it, through list and diff.",
+         "Base-order families for large n are bounded.", "§3 C19"),
 }
 NOT_YET = "check not built yet in this revision of /verif (planned in DESIGN.md §3)"
 
 props = [json.loads(l)["id"] for l in open(os.path.join(ROOT, "properties.jsonl"))]
 checks, na = [], []
 for pid in props:
-    if pid in CHECKS:
+    if pid in CHECKS and os.path.isdir(os.path.join(ROOT, "checks", pid.lower())):
         level, tech, text, note, ref = CHECKS[pid]
         checks.append({
             "property_id": pid,
@@ -43,7 +97,7 @@ man = {
    "add_only": True,
  },
  "engines": [
-   {"name": "vcheck", "path": "cmd/vcheck", "serves_properties": sorted(CHECKS),
+   {"name": "vcheck", "path": "cmd/vcheck", "serves_properties": sorted(p for p in CHECKS if os.path.isdir(os.path.join(ROOT, "checks", p.lower()))),
     "kind_free_text": "hand-written explorer: choice-tree enumeration (full / deviation-bounded) and explicit-state BFS over the real implementation, oracle = independent reference models / relational invariants"},
  ],
  "checks": checks,
